@@ -4,6 +4,7 @@ go 1.25.0
 
 require (
 	github.com/gokrazy/rsync v0.0.0
+	golang.org/x/crypto v0.46.0
 	golang.org/x/sys v0.39.0
 )
 
@@ -14,7 +15,6 @@ require (
 	github.com/google/shlex v0.0.0-20191202100458-e7afc7fbc510 // indirect
 	github.com/landlock-lsm/go-landlock v0.0.0-20250303204525-1544bccde3a3 // indirect
 	github.com/mmcloughlin/md4 v0.1.2 // indirect
-	golang.org/x/crypto v0.46.0 // indirect
 	golang.org/x/sync v0.19.0 // indirect
 	kernel.org/pub/linux/libs/security/libcap/psx v1.2.70 // indirect
 )
